@@ -52,7 +52,7 @@ func (n *sn) yang() string {
 	case "leaf", "leaf-list":
 		t := n.Type
 		if t == "enum" {
-			t = "enumeration { enum red; enum green; }"
+			t = "enumeration { enum red; enum green { status obsolete; } }" // (an obsolete enum is still a value of the type)
 		} else {
 			t += ";"
 		}
